@@ -12,6 +12,17 @@ func init() { families["crypto"] = drvCrypto }
 func (c *ctx) key() lorawan.AES128Key {
 	var k lorawan.AES128Key
 	copy(k[:], c.bytesN(16))
+	switch c.rnd.Intn(24) { // special keys: the Go zero value (all zero), all ones, a single set bit
+	case 0:
+		k = lorawan.AES128Key{}
+	case 1:
+		for i := range k {
+			k[i] = 0xff
+		}
+	case 2:
+		k = lorawan.AES128Key{}
+		k[c.rnd.Intn(16)] = 1 << uint(c.rnd.Intn(8))
+	}
 	return k
 }
 
@@ -371,6 +382,19 @@ func (c *ctx) methodCase() {
 			v["frm"] = []interface{}{}
 		}
 	}
+	if c.rnd.Intn(8) == 0 { // FPort > 0 without any FRMPayload byte (legal): FOpts of a 1.1 downlink still use the AFCntDown variant
+		v["fport"] = []interface{}{c.pick(1, 10, 223, 224, 255)}
+		v["frm"] = []interface{}{}
+		if len(anyList(v["fopts"])) == 0 {
+			v["fopts"] = toIface(c.genStream(dirOf(num(v["mtype"])), 15))
+		}
+	} else if fp := anyList(v["fport"]); len(fp) == 1 && num(fp[0]) > 0 && c.rnd.Intn(8) == 0 {
+		// an application payload handed over in several pieces (FRMPayload is a list of payload items)
+		v["frm"] = []interface{}{M{"t": "raw", "b": c.ints(1 + c.rnd.Intn(20))}, M{"t": "raw", "b": c.ints(1 + c.rnd.Intn(20))}}
+		if c.rnd.Intn(2) == 0 {
+			v["frm"] = append(v["frm"].([]interface{}), M{"t": "raw", "b": c.ints(1 + c.rnd.Intn(5))})
+		}
+	}
 	if c.rnd.Intn(10) == 0 { // a frame value the specification excludes: FRMPayload bytes without an FPort
 		v["fport"] = []interface{}{}
 		v["frm"] = c.genRawItem(1 + c.rnd.Intn(40))
@@ -382,6 +406,13 @@ func (c *ctx) methodCase() {
 		if name == "DecryptFRMPayload" {
 			if err := phy.EncryptFRMPayload(key); err != nil {
 				continue
+			}
+			// a received ciphertext may be held in several pieces (FRMPayload is a list): same bytes, two items
+			if mp, ok := phy.MACPayload.(*lorawan.MACPayload); ok && len(mp.FRMPayload) == 1 && c.rnd.Intn(4) == 0 {
+				if dp, ok := mp.FRMPayload[0].(*lorawan.DataPayload); ok && len(dp.Bytes) >= 2 {
+					k := 1 + c.rnd.Intn(len(dp.Bytes)-1)
+					mp.FRMPayload = []lorawan.Payload{&lorawan.DataPayload{Bytes: append([]byte{}, dp.Bytes[:k]...)}, &lorawan.DataPayload{Bytes: append([]byte{}, dp.Bytes[k:]...)}}
+				}
 			}
 			ev["pre"] = phyToVal(phy)
 		}
